@@ -107,3 +107,37 @@ func (n *ServerNode) SyncBits(id uint32) [4032]bool {
 	}
 	return r.Bits
 }
+
+// EncodeSyncBody builds the body of a sync reply (without length prefix,
+// timestamp and server signature).
+func EncodeSyncBody(key glow.PublicKey, offset uint32, bits *[4032]bool, newGCA glow.PublicKey, newShortID uint32, servers []server.AuthorizedServer, gcaSig [64]byte) []byte {
+	b := make([]byte, 0, 800)
+	b = append(b, key[:]...)
+	b = binary.LittleEndian.AppendUint32(b, offset)
+	var bf [504]byte
+	for i, on := range bits {
+		if on {
+			bf[i/8] |= 1 << uint(i%8)
+		}
+	}
+	b = append(b, bf[:]...)
+	b = append(b, newGCA[:]...)
+	b = binary.LittleEndian.AppendUint32(b, newShortID)
+	for _, as := range servers {
+		b = append(b, ServerBody(as)...)
+		b = append(b, as.GCAAuthorization[:]...)
+	}
+	b = append(b, gcaSig[:]...)
+	return b
+}
+
+// SealSyncReply appends the timestamp and the server signature and prepends
+// the length prefix.
+func SealSyncReply(body []byte, unix uint64, signer *KeyPair) []byte {
+	p := append([]byte{}, body...)
+	p = binary.LittleEndian.AppendUint64(p, unix)
+	sig := glow.Sign(p, signer.Priv)
+	p = append(p, sig[:]...)
+	out := binary.LittleEndian.AppendUint16(nil, uint16(len(p)))
+	return append(out, p...)
+}
